@@ -17,10 +17,6 @@ def check(ck: Checker) -> None:
     from .C07 import check_fetch_verify
 
     check_fetch_verify(ck, "C15.add")
-    from . import round4 as _r4
-
-    _r4.hashinfo_identity(ck, "C15.treelast")
-    _r4.save_every_entry(ck, "C15.treelast")
     ck.decided = [
         "C15.add: in HashFileDB.add the copy precedes the verify/protect loop, which precedes the hash-state rows; nothing vouches for an object before the call that creates it returned",
         "C15.check: check() protects an object only after its hash compared equal, deletes on mismatch",
@@ -111,3 +107,7 @@ def check(ck: Checker) -> None:
     # ----------------------------------------------------------------- heal
     _check_local(ck, rule="C15.heal")
     _check_exists(ck, rule="C15.heal")
+    from . import round4 as _r4
+
+    _r4.hashinfo_identity(ck, "C15.treelast")
+    _r4.save_every_entry(ck, "C15.treelast")
